@@ -7,9 +7,9 @@ from gen import v1gen
 from impl import pipeline, recbuilder
 
 LEVEL = 'proof'
-MODULES = ['Pysmi.Props.C16']
-LAKE_TARGETS = ['Pysmi.Props.C16']
-THEOREMS = ['Pysmi.Imports.C16_converted_absent', 'Pysmi.Imports.C16_converted_present', 'Pysmi.Imports.C16_others_kept',
+MODULES = ['Pysmi.Props.C16', 'Pysmi.Pins.SkelC16']
+LAKE_TARGETS = ['Pysmi.Props.C16', 'Pysmi.Pins.SkelC16']
+THEOREMS = ['Pysmi.Pins.SkelC16.pin_intermediateGenImports', 'Pysmi.Pins.SkelC16.pin_symtableGenImports', 'Pysmi.Pins.SkelC16.pin_genTrapType', 'Pysmi.Imports.C16_converted_absent', 'Pysmi.Imports.C16_converted_present', 'Pysmi.Imports.C16_others_kept',
             'Pysmi.Imports.C16_convert_idempotent', 'Pysmi.Imports.symbolsOf_convert',
             'Pysmi.Generated.Smiv1.C16_targets_final', 'Pysmi.Generated.Smiv1.C16_targets_not_smiv1',
             'Pysmi.Generated.Smiv1.C16_every_v1_symbol_has_home', 'Pysmi.Generated.Smiv1.C16_type_map', 'Pysmi.Oid.C16_trap_oid']
